@@ -4,6 +4,7 @@ CONSTANTS
   Txs <- T
   DenomValue <- DV
   RYW = TRUE
+  BaseFeeOn = FALSE
   MaxTxPerBlock = 3
   MaxBlocks = 2
 VIEW view
